@@ -71,7 +71,7 @@ func fromMultihash(ctx context.Context, services coreiface.CoreAPI, hash cid.Cid
 	if options.Length != nil && *options.Length > -1 {
 		sorting.Sort(sortFn, entries, false)
 
-		entries = entrySlice(entries, -*options.Length)
+		entries = lastEntries(entries, *options.Length)
 	}
 
 	var heads []cid.Cid
@@ -123,7 +123,7 @@ func fromEntryHash(ctx context.Context, services coreiface.CoreAPI, hashes []cid
 	entries := all
 	if length > -1 {
 		sorting.Sort(sortFn, entries, false)
-		entries = entrySlice(all, -length)
+		entries = lastEntries(all, length)
 	}
 
 	return entries, nil
@@ -151,6 +151,11 @@ func fromJSON(ctx context.Context, services coreiface.CoreAPI, jsonLog *iface.JS
 	})
 
 	sorting.Sort(sorting.Compare, entries, false)
+
+	// the fetcher may deliver more than Length entries: keep the most recent ones
+	if options.Length != nil && *options.Length > -1 {
+		entries = lastEntries(entries, *options.Length)
+	}
 
 	return &Snapshot{
 		ID:     jsonLog.ID,
@@ -190,28 +195,40 @@ func fromEntry(ctx context.Context, services coreiface.CoreAPI, sourceEntries []
 		IO:           options.IO,
 	})
 
-	// Combine the fetches with the source entries and take only uniques
-	combined := append(sourceEntries, entries...)
-	combined = append(combined, options.Exclude...)
-	uniques := entry.NewOrderedMapFromEntries(combined).Slice()
-	sorting.Sort(sorting.Compare, uniques, false)
+	// Keep every source entry and fill up with the most recent of the other entries
+	supplied := entry.NewOrderedMapFromEntries(sourceEntries)
+	var others []iface.IPFSLogEntry
+	for _, e := range entry.NewOrderedMapFromEntries(append(entries, options.Exclude...)).Slice() {
+		if _, ok := supplied.Get(e.GetHash().String()); !ok {
+			others = append(others, e)
+		}
+	}
+	sorting.Sort(sorting.Compare, others, false)
 
-	// Cap the result at the right size by taking the last n entries
-	var sliced []iface.IPFSLogEntry
-
+	// Cap the result at the right size by taking the last n - len(source) other entries
 	if length > -1 {
-		sliced = entrySlice(uniques, -length)
-	} else {
-		sliced = uniques
+		others = lastEntries(others, length-supplied.Len())
 	}
 
-	missingSourceEntries := entry.Difference(sliced, sourceEntries)
-	result := append(missingSourceEntries, entrySliceRange(sliced, len(missingSourceEntries), len(sliced))...)
+	result := append(supplied.Slice(), others...)
 
 	return &Snapshot{
 		ID:     result[len(result)-1].GetLogID(),
 		Values: result,
 	}, nil
+}
+
+// lastEntries returns the last n entries of a slice (none when n <= 0, all when n >= len).
+func lastEntries(entries []iface.IPFSLogEntry, n int) []iface.IPFSLogEntry {
+	if n <= 0 {
+		return []iface.IPFSLogEntry{}
+	}
+
+	if n >= len(entries) {
+		return entries
+	}
+
+	return entries[len(entries)-n:]
 }
 
 func entrySlice(entries []iface.IPFSLogEntry, index int) []iface.IPFSLogEntry {
